@@ -34,6 +34,13 @@ def targeted_exprs():
                 ['if', ch, a, b], ['if', a, ch, b], ['if', a, b, ch], ['mkset', ch, ch], ['mkrec', [S('a'), ch], [S('if'), ch], [S(''), ch]],
                 ['call', S('isInRange'), ch, a], ['call', S('isInRange'), a, ch], ['call', S('ip'), ch], ['call', S('toDate'), ch],
                 ['call', S('offset'), ch, ch]]
+    # unary minus in front of every kind of primary and postfix chain: function-style and method-style extension calls, sets, records, if, variables
+    dec_ = ['call', S('decimal'), lit(gen.vstr('1.0'))]
+    dur_ = ['call', S('duration'), lit(gen.vstr('1h'))]
+    for opnd in (dec_, dur_, ['call', S('ip'), lit(gen.vstr('1.1.1.1'))], ['call', S('datetime'), lit(gen.vstr('2024-01-01'))], ['call', S('toHours'), dur_],
+                 ['call', S('lessThan'), dec_, dec_], ['access', dec_, S('a')], ['call', S('toTime'), ['call', S('datetime'), lit(gen.vstr('2024-01-01'))]],
+                 ['mkset', L(1)], ['mkrec', [S('a'), L(1)]], ['access', ['mkrec', [S('a'), L(1)]], S('a')], ['if', a, L(1), L(2)], ['call', S('decimal')]):
+        out += [['neg', opnd], ['neg', ['neg', opnd]], ['not', ['neg', opnd]], ['sub', L(1), ['neg', opnd]]]
     out += [['neg', ['neg', L(5)]], ['neg', L(gen.MIN64)], ['neg', ['neg', ['neg', c]]], ['not', ['not', ['not', a]]], ['sub', a, ['neg', b]], ['sub', a, L(-2)],
             ['sub', ['sub', a, b], c], ['sub', a, ['sub', b, c]], ['mul', ['mul', a, b], c], ['mul', a, ['mul', b, c]],
             ['neg', ['access', L(1), S('a')]], ['neg', ['contains', L(1), a]], ['access', L(-5), S('a')], ['neg', ['call', S('toDate'), L(1)]],
